@@ -160,6 +160,13 @@ func genArMember(t *rapid.T, label string) ArMember {
 	m.MTime = int64(rapid.Uint64Range(0, 999999999999).Draw(t, label+"mtime"))
 	m.UID = int64(rapid.IntRange(0, 999999).Draw(t, label+"uid"))
 	m.GID = int64(rapid.IntRange(0, 999999).Draw(t, label+"gid"))
+	if rapid.IntRange(0, 7).Draw(t, label+"mtimeMark") == 0 {
+		// around the marks a narrower integer would wrap at: 2^31, 2^32 (ten digits), 2^33, ten nines
+		m.MTime = rapid.SampledFrom([]int64{1<<31 - 1, 1 << 31, 1<<32 - 1, 1 << 32, 1<<32 + 1, 5000000000, 1 << 33, 9999999999, 10000000000, 99999999999, 999999999999}).Draw(t, label+"mtimeAt") + int64(rapid.IntRange(0, 3).Draw(t, label+"mtimePlus"))
+		if m.MTime > 999999999999 {
+			m.MTime = 999999999999
+		}
+	}
 	if rapid.IntRange(0, 11).Draw(t, label+"signed") == 0 {
 		// the columns are signed decimal text: ar writes a time before 1970 as "-3600" and the
 		// owner "nobody" of some systems as -1 or -2
